@@ -13,3 +13,6 @@ for id in "$@"; do
 done
 git -C /repo checkout -- .
 rm -rf /verif/evidence; mv /verif/out/evidence.keep /verif/evidence
+# the driver binaries were built from the changed tree: rebuild them from the restored one, so that a
+# later `--no-build` run cannot pick up a stale binary
+(cd /verif && ./setup.sh > /verif/out/setup_after_run_against.log 2>&1) || echo "rebuild after restore failed"
